@@ -118,6 +118,15 @@ func (th *TagsHolder) finish() {
 	th.done = true
 }
 
+// Writes the length of the next field of the TSID input. With the lengths in
+// front, two different (metric name, tags) never give the same bytes, whatever
+// the names and values contain.
+func (th *TagsHolder) writeFieldLen(fieldLen int) {
+	var lenBuf [4]byte
+	utils.Uint32ToBytesLittleEndianInplace(uint32(fieldLen), lenBuf[:])
+	th.buf.Write(lenBuf[:])
+}
+
 /*
 Gets the TSID given a metric name
 
@@ -126,6 +135,7 @@ Internally, will make sure the tags keys are sorted
 func (th *TagsHolder) GetTSID(mName []byte) (uint64, error) {
 	th.finish()
 	th.buf.Reset()
+	th.writeFieldLen(len(mName))
 	_, err := th.buf.Write(mName)
 	if err != nil {
 		log.Errorf("TagsHolder.GetTSID: Error writing metric name: %v", err)
@@ -138,6 +148,7 @@ func (th *TagsHolder) GetTSID(mName []byte) (uint64, error) {
 		return 0, err
 	}
 	for _, val := range th.entries {
+		th.writeFieldLen(len(val.tagKey))
 		_, err := th.buf.WriteString(val.tagKey)
 		if err != nil {
 			log.Errorf("TagsHolder.GetTSID: Error writing tag key %v, err=%v", val.tagKey, err)
@@ -148,6 +159,7 @@ func (th *TagsHolder) GetTSID(mName []byte) (uint64, error) {
 			log.Errorf("TagsHolder.GetTSID: Error writing tags separator %v, err=%v", tags_separator, err)
 			return 0, err
 		}
+		th.writeFieldLen(len(val.tagValue))
 		if val.tagValue == nil {
 			continue
 		}
